@@ -247,7 +247,10 @@ example : specStatus (finalStk [] exEndOpsOpen) = .active := by decide
 
 end Hostd.Chain
 
-/-! ### the store as a whole: the hypothesis of `C06_actions_exact` holds after every history -/
+/-! ### the store as a whole: the hypothesis of `C06_actions_exact` holds after every history
+
+(The hypotheses `KeysNodup`, `MInv`, `hfresh`, `WFG` are those of `C01_global`; `Props/C01G.lean` ends with
+examples showing that the store `exS` and the reorg history `exG` satisfy all four.) -/
 namespace Hostd.Chain
 
 /-- the invariant of the totality proof of C01 holds in the state a well-formed history ends in -/
